@@ -354,6 +354,7 @@ func (ch *channel) release() {
 		return
 	}
 
+	verifYield("chan.beforeSwap")
 	s := ch.state.Swap(nil)
 	if s == nil {
 		panic("release of released channel")
